@@ -29,14 +29,10 @@ fn tokens(s: &str, styled: bool) -> Vec<Tok> {
     let mut i = 0;
     while i < cs.len() {
         let c = cs[i];
-        if styled && c == '\u{1b}' && i + 1 < cs.len() && cs[i + 1] == '[' {
-            let mut j = i + 2;
-            while j < cs.len() && (cs[j].is_ascii_digit() || cs[j] == ';') {
-                j += 1;
-            }
-            if j < cs.len() && cs[j] == 'm' {
-                out.push(Tok::Esc(cs[i..=j].iter().collect()));
-                i = j + 1;
+        if styled && c == '\u{1b}' {
+            if let Some(end) = escape_end(&cs, i) {
+                out.push(Tok::Esc(cs[i..end].iter().collect()));
+                i = end;
                 continue;
             }
         }
@@ -48,6 +44,60 @@ fn tokens(s: &str, styled: bool) -> Vec<Tok> {
         i += 1;
     }
     out
+}
+
+/// End (exclusive) of the ANSI escape sequence starting at `i` (ECMA-48): CSI `ESC [ params intermediates final`,
+/// or OSC `ESC ] payload ST` with ST = `ESC \\`. None if it is not a complete sequence of these kinds.
+fn escape_end(cs: &[char], i: usize) -> Option<usize> {
+    if cs.get(i) != Some(&'\u{1b}') {
+        return None;
+    }
+    match cs.get(i + 1) {
+        Some('[') => {
+            let mut j = i + 2;
+            while j < cs.len() && ('\u{30}'..='\u{3f}').contains(&cs[j]) {
+                j += 1;
+            }
+            while j < cs.len() && ('\u{20}'..='\u{2f}').contains(&cs[j]) {
+                j += 1;
+            }
+            if j < cs.len() && ('\u{40}'..='\u{7e}').contains(&cs[j]) {
+                Some(j + 1)
+            } else {
+                None
+            }
+        }
+        Some(']') => {
+            let mut j = i + 2;
+            while j + 1 < cs.len() {
+                if cs[j] == '\u{1b}' && cs[j + 1] == '\\' {
+                    return Some(j + 2);
+                }
+                if cs[j] == '\n' || cs[j] == ' ' {
+                    return None;
+                }
+                j += 1;
+            }
+            None
+        }
+        _ => None,
+    }
+}
+
+/// Reference display width of styled text: every complete escape sequence counts zero.
+pub fn ref_width_styled(s: &str) -> usize {
+    let cs: Vec<char> = s.chars().collect();
+    let mut w = 0;
+    let mut i = 0;
+    while i < cs.len() {
+        if let Some(end) = escape_end(&cs, i) {
+            i = end;
+            continue;
+        }
+        w += cs[i].width().unwrap_or(0);
+        i += 1;
+    }
+    w
 }
 
 /// Reference display width: unicode-width per char, SGR sequences count zero.
@@ -245,7 +295,8 @@ fn run_case(case: &WrapCase, ctx: &mut Ctx) -> Verdict {
         return Verdict::Fail(f);
     }
     // display width of every word: implementation vs reference
-    for word in case.text.split(|c| c == ' ' || c == '\n') {
+    let only_sgr = !case.text.contains("\u{1b}]") && !NON_SGR.iter().any(|q| case.text.contains(q));
+    for word in case.text.split(|c| c == ' ' || c == '\n').filter(|_| only_sgr) {
         let real = hooks::display_width(word);
         let want = ref_width(word);
         ensure!(
@@ -261,7 +312,7 @@ fn run_case(case: &WrapCase, ctx: &mut Ctx) -> Verdict {
         // StyledStr::display_width skips escape sequences
         let line = case.text.replace('\n', " ");
         let real = hooks::styled_display_width(&line);
-        let want = ref_width(&line);
+        let want = ref_width_styled(&line);
         ensure!(
             real == want,
             "wrap:styled_display_width",
@@ -274,6 +325,9 @@ fn run_case(case: &WrapCase, ctx: &mut Ctx) -> Verdict {
     Verdict::Pass
 }
 
+/// escape sequences other than SGR (styled texts only): CSI erase / cursor / private mode, OSC 8 hyperlink open and close
+const NON_SGR: &[&str] = &["\u{1b}[2K", "\u{1b}[1G", "\u{1b}[?25l", "\u{1b}]8;;http://x.y/z\u{1b}\\", "\u{1b}]8;;\u{1b}\\"];
+
 const LETTERS: &[&str] = &["a", " ", "\n", "\u{5b57}", "\u{301}", "\u{1b}[1m"];
 
 pub struct Wrap;
@@ -285,7 +339,7 @@ impl Property for Wrap {
     }
     fn rule(&self) -> String {
         "texts over {word chars, ' ', '\\n', wide chars (CJK, emoji), zero-width chars (U+0301, U+200B, U+200D, U+FE0F), SGR \
-         sequences ESC[..m}: exhaustive for length <= 7 (thorough 8) over the 6 letters {a, space, newline, U+5B57, U+0301, ESC[1m} x \
+         sequences ESC[..m; in styled texts also other CSI sequences and OSC 8 hyperlinks}: exhaustive for length <= 7 (thorough 8) over the 6 letters {a, space, newline, U+5B57, U+0301, ESC[1m} x \
          widths 0..=6 x {plain wrap, StyledStr::wrap}; random texts up to 400 letters (words of 1-12 chars, space runs 1-4, indented \
          lines) x widths 0..200 and usize::MAX. Oracle: two-pointer walk proving the output is the input with inter-word space runs \
          replaced by newline + the line's leading indent and nothing else changed; plain: every right-trimmed output line has \
@@ -325,7 +379,13 @@ impl Property for Wrap {
                     0 => text.push(*t.pick(&['a', 'b', 'Z', '-', '.', '\u{e9}', '0'])),
                     1 => text.push_str(*t.pick(wide)),
                     2 => text.push_str(*t.pick(zero)),
-                    3 => text.push_str(*t.pick(sgr)),
+                    3 => {
+                        if styled && t.chance(1, 3) {
+                            text.push_str(*t.pick(NON_SGR))
+                        } else {
+                            text.push_str(*t.pick(sgr))
+                        }
+                    }
                     _ => text.push('m'),
                 }
             }
